@@ -41,3 +41,17 @@ func FuzzNoEntries(f *testing.F) {
 		}
 	}))
 }
+
+// FuzzLongLines: the same for ammo files with long lines (generator and oracle of TestLongLines).
+func FuzzLongLines(f *testing.F) {
+	pand.Init()
+	r := vf.Detached("C14")
+	f.Add([]byte{})
+	f.Add([]byte{1, 2, 3, 4, 5, 6, 7, 8, 9, 10, 11, 12, 13, 14, 15, 16})
+	f.Fuzz(rapid.MakeFuzz(func(t *rapid.T) {
+		c := genLongCase(t)
+		if err := vf.Guard(func() error { return checkLong(c, &vf.Obs{}, r) }); err != nil {
+			t.Fatalf("%v", err)
+		}
+	}))
+}
